@@ -129,6 +129,36 @@ func newTagProg(id string, r *rand.Rand, coverFrom int, _ bool) *tagGen {
 	mid.b.Fields = []*Field{{Embedded: true, Type: Ref(deep.b)}}
 	metaS.a.Fields = []*Field{{Name: "Owner", Type: Basic("string")}, {Embedded: true, Type: Ref(audit.a)}}
 	metaS.b.Fields = []*Field{{Name: "Owner", Type: Basic("string")}, {Embedded: true, Type: Ref(audit.b)}}
+	// two structs embedded side by side declaring the same Go name at the same depth: encoding/json keeps
+	// the field whose tag NAMES it when there is exactly one such field, and drops all of them otherwise
+	// (a tag made of options only does not name the field)
+	clashL := add("clashLeft", DStruct, "other.go")
+	clashR := add("clashRight", DStruct, "other.go")
+	clashVariant := r.Intn(4)
+	for _, d := range []*Decl{clashL.a, clashL.b} {
+		tag := []string{`json:",omitempty"`, `json:"Comment"`, `json:"Comment,omitempty"`, `json:""`}[clashVariant]
+		d.Fields = []*Field{{Name: "Comment", Type: Basic("string"), Tag: tag}, {Name: "Author", Type: Basic("string")}}
+	}
+	for _, d := range []*Decl{clashR.a, clashR.b} {
+		tag := []string{"", "", `json:"Comment"`, `json:",omitempty"`}[clashVariant]
+		d.Fields = []*Field{{Name: "Comment", Type: Basic("string"), Tag: tag}, {Name: "Score", Type: Basic("int")}}
+	}
+	// an ambiguity two levels down hides a deeper field of the same name: ambPair{ambLeft; ambRight} both declare
+	// Xtra (dropped: ambiguous at depth 1 of ambPair), ambTop{ambMid{ambLeaf}} declares it three levels down; a struct
+	// embedding ambPair and ambTop serialises no Xtra at all
+	ambL, ambR, ambPair := add("ambLeft", DStruct, "other.go"), add("ambRight", DStruct, "other.go"), add("ambPair", DStruct, "other.go")
+	ambLeaf, ambMid, ambTop := add("ambLeaf", DStruct, "other.go"), add("ambMid", DStruct, "other.go"), add("ambTop", DStruct, "other.go")
+	for i, pr := range [][2]*Decl{{ambL.a, ambL.b}, {ambR.a, ambR.b}, {ambLeaf.a, ambLeaf.b}} {
+		for _, d := range pr {
+			d.Fields = []*Field{{Name: "Xtra", Type: Basic([]string{"string", "string", "int"}[i])}, {Name: fmt.Sprintf("Only%d", i), Type: Basic("bool")}}
+		}
+	}
+	ambPair.a.Fields = []*Field{{Embedded: true, Type: Ref(ambL.a)}, {Embedded: true, Type: Ref(ambR.a)}}
+	ambPair.b.Fields = []*Field{{Embedded: true, Type: Ref(ambL.b)}, {Embedded: true, Type: Ref(ambR.b)}}
+	ambMid.a.Fields = []*Field{{Embedded: true, Type: Ref(ambLeaf.a)}}
+	ambMid.b.Fields = []*Field{{Embedded: true, Type: Ref(ambLeaf.b)}}
+	ambTop.a.Fields = []*Field{{Embedded: true, Type: Ref(ambMid.a)}}
+	ambTop.b.Fields = []*Field{{Embedded: true, Type: Ref(ambMid.b)}}
 	nStructs := 5 + r.Intn(3)
 	holderA := &Decl{Name: "Holder", Pkg: root, File: "models.go", Kind: DStruct, Fields: []*Field{{Name: "Id", Type: Basic("int64")}}}
 	holderB := &Decl{Name: "Holder", Pkg: twRoot, File: "models.go", Kind: DStruct, Fields: []*Field{{Name: "Id", Type: Basic("int64")}}}
@@ -209,10 +239,18 @@ func newTagProg(id string, r *rand.Rand, coverFrom int, _ bool) *tagGen {
 				d.Fields = append(d.Fields, &Field{Name: "guard" + name, Type: Ref(map[*Decl]*Decl{st.a: enum.a, st.b: enum.b}[d]), Tag: `gomacro-sql-guard:"#[Mood.MoodCalm]"`})
 			}
 			p.Feature("tagprog:unexported-guard-field")
+			st.a.Fields = append(st.a.Fields, &Field{Embedded: true, Type: Ref(clashL.a)}, &Field{Embedded: true, Type: Ref(clashR.a)})
+			st.b.Fields = append(st.b.Fields, &Field{Embedded: true, Type: Ref(clashL.b)}, &Field{Embedded: true, Type: Ref(clashR.b)})
+			p.Feature(fmt.Sprintf("tagprog:same-name-at-equal-depth-from-two-embedded-structs:%s", []string{"options-only-tag-vs-none", "naming-tag-vs-none", "two-naming-tags", "empty-tag-vs-options-only"}[clashVariant]))
 		} else if s == 3 {
 			st.a.Fields = append(st.a.Fields, &Field{Embedded: true, Type: Ref(metaS.a)})
 			st.b.Fields = append(st.b.Fields, &Field{Embedded: true, Type: Ref(metaS.b)})
 			p.Feature("tagprog:embedded-unexported-type-two-levels")
+			if r.Intn(2) == 0 {
+				st.a.Fields = append(st.a.Fields, &Field{Embedded: true, Type: Ref(ambPair.a)}, &Field{Embedded: true, Type: Ref(ambTop.a)})
+				st.b.Fields = append(st.b.Fields, &Field{Embedded: true, Type: Ref(ambPair.b)}, &Field{Embedded: true, Type: Ref(ambTop.b)})
+				p.Feature("tagprog:ambiguous-name-two-levels-down-hides-a-deeper-one")
+			}
 			if r.Intn(2) == 0 {
 				// same JSON KEY as a promoted field (two levels down): like encoding/json, the
 				// shallower field hides the promoted one
